@@ -44,6 +44,17 @@ func ZZ_C04_N12() {
 		zzverif.Reach("N12 failure")
 	}
 	n.end()
+	// N3: the nonce is durable - the committed account record (what a restarted
+	// process, or a replica syncing from the store, loads) carries the nonce in
+	// force, for the sender and for everybody else (round 8, seed C04-h)
+	for i := 0; i < zzNAcct; i++ {
+		live := n.app.acctCtrler.FindAccount(zzAddr(i), true)
+		com := n.app.acctCtrler.ReadAccount(zzAddr(i))
+		if live != nil {
+			zzverif.Assert(com != nil && com.GetNonce() == live.GetNonce(), "N3 after Commit the committed account record carries the nonce in force")
+			zzverif.Assert(com != nil && com.GetBalance().Eq(live.GetBalance()), "N3 after Commit the committed account record carries the balance in force")
+		}
+	}
 }
 
 // ZZ_C05_A1: a transaction that returns a non-zero code changes nothing and
